@@ -21,7 +21,7 @@ let join l = String.concat ";" l
 (* ---------------- ArrayList *)
 let al_op t = match split ':' t with
   | ["pb"; v] | ["pba"; _; v] -> AlPush (ios v) | ["er"; k] -> AlErase (nat_of_int (ios k)) | ["pg"] -> AlPurge | ["cl"] -> AlClear
-  | ["seta"; i; _; v] -> AlSet (nat_of_int (ios i), ios v) | ["cpy"] | ["cpyd"] | ["cpya"] -> AlCopy
+  | ["seta"; i; _; v] -> AlSet (nat_of_int (ios i), ios v) | ["cpy"] | ["cpyd"] | ["cpya"] | [("asgo" | "asgm"); _; _; _] -> AlCopy
   | ["set"; i; v] -> AlSet (nat_of_int (ios i), ios v) | ["hold"; k] -> AlHold (nat_of_int (ios k))
   | _ -> failwith ("bad al op " ^ t)
 let al_obs ((n, l), h) = Printf.sprintf "%d[%s]%s" (int_of_nat n) (ints l) (match h with Some v -> string_of_int v | None -> "-")
@@ -79,6 +79,7 @@ let run_sl ops =
 let lru_op t = match split ':' t with
   | ["ins"; k; v] | ["insa"; k; _; v] -> LruInsert (nat_of_int (ios k), ios v) | ["touch"; k] | ["ins1"; k] | ["toucha"; k] -> LruTouch (nat_of_int (ios k))
   | ["cpy"] | ["cpyd"] | ["cpya"] -> LruCopy
+  | ["asgo"; pre] -> LruAssignOnto (if pre = "" then [] else List.map (fun kv -> match split '=' kv with [k; v] -> (nat_of_int (ios k), ios v) | _ -> failwith "bad asgo") (split ',' pre))
   | ["popf"] -> LruPopFront | ["popb"] -> LruPopBack | ["rsz"; n] -> LruResize (nat_of_int (ios n)) | ["cl"] -> LruClear
   | _ -> failwith ("bad lru op " ^ t)
 let lru_obs (((r, n), fb), fs) =
@@ -95,7 +96,8 @@ let run_lru nk ops =
   "-"
 
 (* ---------------- ReservedVector *)
-let rv_op t = match split ':' t with
+let rv_op cap t = match split ':' t with
+  | ["atbig"; i; _] -> RvAt (bi i, nat_of_int (cap + 1))     (* 2^31 .. SIZE_MAX: any index >= size() (<= capacity), theorem C11_reserved_at_beyond *)
   | [("pb" | "pbm" | "eb"); i; v] | [("pbe" | "ebe"); i; _; v] -> RvPush (bi i, ios v)
   | ["fille"; i; _; v] -> RvFill (bi i, ios v) | ["swapr"; _] -> RvSwap
   | [("swaps" | "asgs" | "cpyc"); i; sz] -> RvResize (bi i, nat_of_int (ios sz))        (* identity: resize to the current size *) | ["pop"; i] -> RvPop (bi i) | ["rsz"; i; k] -> RvResize (bi i, nat_of_int (ios k))
@@ -118,7 +120,7 @@ let rvs_obs ((((oa, ob), ((e, l1), l2)), r)) =
   Printf.sprintf "%s %s %s%s%s %s" (o1 oa) (o1 ob) (sb e) (sb l1) (sb l2)
     (match r with None -> "_" | Some None -> "OOR" | Some (Some v) -> sv v)
 let run_rv n ops =
-  let ops = List.map rv_op ops and nn = nat_of_int n in
+  let ops = List.map (rv_op n) ops and nn = nat_of_int n in
   let w0 = ((c11_rv_empty 0 nn, c11_rv_empty 0 nn), None) in
   let d4 f (((a, b), c), e) = " " ^ f a ^ f b ^ f c ^ f e in
   let sb = function Some b -> b01 b | None -> "*" in
@@ -127,7 +129,14 @@ let run_rv n ops =
 
 (* ---------------- BitSetVector *)
 let bop = function "and" | "andb" -> BvAnd | "or" | "orb" -> BvOr | _ -> BvXor
-let bv_op t = let n s = nat_of_int (ios s) in match split ':' t with
+let rec pos_of_int i = if i <= 1 then XH else if i land 1 = 0 then XO (pos_of_int (i lsr 1)) else XI (pos_of_int (i lsr 1))
+let z_of_int i = if i = 0 then Z0 else if i > 0 then Zpos (pos_of_int i) else Zneg (pos_of_int (- i))
+let bv_op bs t = let n s = nat_of_int (ios s) in match split ':' t with
+  | ["setv"; i; j; v] -> BvSet (n i, n j, c11_bv_val_to_bool (z_of_int (ios v)))     (* int -> bool as in the model, theorem C11_bitset_set_val_nonzero *)
+  | ["asgo"; _; _; cur] -> BvResize (n cur, false)                                  (* identity: resize to the current size *)
+  | [("xblk" | "xblkc"); i; b; _; _] -> BvAssignBits (n i, bits_of_string b)
+  | [("xand" | "xior" | "xxor") as o; i; b; _; _] -> BvOpBits ((match o with "xand" -> BvAnd | "xior" -> BvOr | _ -> BvXor), n i, bits_of_string b)
+  | ["shlb"; i; _] -> BvShl (n i, nat_of_int bs) | ["shrb"; i; _] -> BvShr (n i, nat_of_int bs)   (* counts >= 2^31: theorem C11_bitset_shift_saturates *)
   | ["rsz"; k; v] -> BvResize (n k, bi v) | ["rszd"; k] -> BvResize (n k, false) | ["set1"; i; j] -> BvSet (n i, n j, true) | ["cl"] -> BvClear | ["sall"] -> BvSetAll | ["uall"] -> BvUnsetAll
   | [("set" | "sidx"); i; j; v] -> BvSet (n i, n j, bi v) | ["rbit"; i; j] -> BvSet (n i, n j, false) | ["flip"; i; j] -> BvFlipBit (n i, n j)
   | ["bset"; i] -> BvSetBlock (n i) | ["breset"; i] -> BvResetBlock (n i) | ["bflip"; i] -> BvFlipBlock (n i)
@@ -142,7 +151,7 @@ let bv_obs (((bl, c), cm), qs) =
     (String.concat "," (List.map (fun x -> string_of_int (int_of_nat x)) cm))
     (String.concat "," (List.map (fun (((((cn, a), n), l), e), nb) -> Printf.sprintf "%d%s%s%s%s~%s" (int_of_nat cn) (b01 a) (b01 n) (b01 l) (b01 e) (string_of_bits nb)) qs))
 let run_bv bs ops =
-  let ops = List.map bv_op ops and bs = nat_of_int bs in
+  let ops = List.map (bv_op bs) ops and bs = nat_of_int bs in
   let m = join (List.map (show_res bv_obs) (c11_bv_run bs [] ops)) in
   m, join (List.map (show_opt bv_obs) (c11_bvs_run bs [] ops)), m, "-"
 
